@@ -19,8 +19,20 @@ def n_spawns(case: dict) -> int:
 
 def _c01() -> SimEngine:
     prof = profile(sizes=FIN, p_cb_raise=0.12, p_worker_raise=0.1, p_callfault=0.1,
-                   ops={"set_size": 0, "cancel": 2, "cancel_group": 1.2, "flush": 1, "close": 0.3, "spawn": 9})
+                   ops={"set_size": 0, "cancel": 2, "cancel_group": 1.2, "flush": 1.5, "close": 0.3, "spawn": 9, "abandon": 0.6})
     emb = profile(sizes=FIN, p_embedded=0.4, p_cb_raise=0.1, ops={"spawn": 9, "cancel": 2})
+    def sw(tier: str):
+        perts = [{"op": "flush", "pool": 0}, {"op": "flush", "pool": 0, "re": True}]
+        cases: List[dict] = []
+        for second in ({"op": "cancel", "pool": 0, "refs": [["run", 0]], "place": "inline"}, {"op": "cancel_group", "pool": 0, "ref": ["live", 0], "place": "inline"}):
+            for tail in ([{"op": "tick", "k": 1}, {"op": "abandon", "k": 0, "place": "inline"}, {"op": "settle"}],
+                         [{"op": "tick", "k": 2}, {"op": "abandon", "k": 0, "place": "inline"}, {"op": "tick", "k": 1}, {"op": "gate_all", "place": "inline"}, {"op": "settle"}]):
+                c, _ = sweep_space(perts, max_tick=5, places=("inline", "task"), sizes=(1, 2), second=second, tail=tail)
+                cases += c
+        if tier == "quick":
+            cases = cases[::6]
+        return ("base scenario x (cancel / cancel_group) x flush at every tick 0..5 x the flush caller abandoned 1-2 ticks later", cases, len(cases))
+
     return SimEngine(
         "C01",
         "programs: 1 pool of fixed size in {0,1,2,3,4,inf}, <=30(quick)/60 steps over spawn/cancel/cancel_group/cancel_all/stop/flush/"
@@ -29,13 +41,13 @@ def _c01() -> SimEngine:
         "Distinct = canonical JSON hash of the program.",
         [("default", prof, 0.6), ("embedded-heavy", emb, 0.25), ("two-pools", dict(prof, max_pools=2), 0.15)],
         lambda case, l: "pool-full-with-spawner-waiting" in l,
-        n_quick=4000, n_thorough=200000,
+        n_quick=4000, n_thorough=200000, sweep=sw,
         floors={"pool-full-with-spawner-waiting": 0.3, "idle:pool-full": 0.3})
 
 
 def _c02() -> SimEngine:
     prof = profile(sizes=FIN, p_cb=0.7, p_cb_wait=0.5, p_worker_raise=0.15, p_cb_raise=0.05, p_bad_return=0.06,
-                   ops={"cancel": 5, "cancel_group": 2, "cancel_all": 0.6, "stop": 2, "flush": 2.5, "tick": 8, "spawn": 8, "close": 0.1},
+                   ops={"cancel": 5, "cancel_group": 2, "cancel_all": 0.6, "stop": 2, "flush": 2.5, "tick": 8, "spawn": 8, "close": 0.1, "abandon": 0.6},
                    cancel_refs=["run", "run", "run", "run", "live", "any"])
 
     def sw(tier: str):
